@@ -26,7 +26,8 @@ pub const REWRITE_DEF: &str = "# replace list: every rule changes the byte lengt
 pub struct Word {
     pub dic: usize, // 0 = system, k = k-th user dictionary (its id once loaded)
     pub idx: u32,
-    pub key: String,
+    pub key: String,  // CSV column 0: the indexed string, what the word occupies in the normalised text
+    pub head: String, // CSV column 4: the headword (WordInfo::surface); any string, often of another byte length
     pub cost: i32,
     pub indexed: bool,
     pub a: Vec<(usize, u32, bool)>, // (dictionary of the unit, index, written as inline reference)
@@ -54,7 +55,10 @@ impl Lexica {
     fn unit_text(&self, owner: usize, u: &(usize, u32, bool)) -> String {
         let w = self.get(u.0, u.1);
         if u.2 {
-            format!("{},{},{}", w.key, POS, Self::reading(w))
+            // inline references to words of the dictionary being built are resolved by key (RawDictResolver), those to
+            // the system dictionary from a user dictionary by the headword read back from it (BinDictResolver)
+            let surface = if u.0 == owner { &w.key } else { &w.head };
+            format!("{},{},{}", surface, POS, Self::reading(w))
         } else if u.0 == 0 || owner == 0 {
             format!("{}", u.1)
         } else {
@@ -75,10 +79,25 @@ impl Lexica {
             let mode = if w.a.is_empty() && w.b.is_empty() { "A" } else { "C" };
             s.push_str(&format!(
                 "{},{},{},{},{},{},{},{},*,{},{},{},*,*\n",
-                w.key, lr, 0, w.cost, w.key, POS, Self::reading(w), w.key, mode, units(&w.a), units(&w.b)
+                w.key, lr, 0, w.cost, w.head, POS, Self::reading(w), w.key, mode, units(&w.a), units(&w.b)
             ));
         }
         s
+    }
+}
+
+/// headword of a generated word: the key itself, or a spelling whose UTF-8 length differs from the key's (kana key with
+/// kanji headword, half-width key with full-width headword, ...); the headword never occupies text, only the key does
+pub fn gen_head(rng: &mut Rng, key: &str) -> String {
+    match rng.below(5) {
+        0 | 1 => key.to_string(),
+        2 => key.chars().map(|c| match c.len_utf8() { 1 => 'Ａ', 2 => 'e', 3 => '𠮷', _ => '亜' }).collect(),
+        3 => format!("{}々", key),
+        _ => {
+            let mut h: String = key.chars().skip(1).collect();
+            h.push('h');
+            h
+        }
     }
 }
 
@@ -106,7 +125,7 @@ pub fn gen_lexica(rng: &mut Rng, want_ill_formed: bool) -> Lexica {
             }
             let k = rng.below(pool.len() as u64) as usize;
             let key = pool.remove(k);
-            lx.words.push(Word { dic, idx, key: key.to_string(), cost: 2000 + rng.below(500) as i32, indexed: !rng.chance(1, 6), a: vec![], b: vec![] });
+            lx.words.push(Word { dic, idx, key: key.to_string(), head: gen_head(rng, key), cost: 2000 + rng.below(500) as i32, indexed: !rng.chance(1, 6), a: vec![], b: vec![] });
             idx += 1;
         }
         // compounds
@@ -150,14 +169,15 @@ pub fn gen_lexica(rng: &mut Rng, want_ill_formed: bool) -> Lexica {
                 _ => (aunits, bunits),
             };
             let cost = if rng.chance(1, 8) { 9000 } else { 50 + rng.below(300) as i32 };
-            lx.words.push(Word { dic, idx, key, cost, indexed: true, a, b });
+            let head = gen_head(rng, &key);
+            lx.words.push(Word { dic, idx, key, head, cost, indexed: true, a, b });
             idx += 1;
         }
         // a word with exactly one declared unit: a cheaper homograph pointing at an existing word
         if rng.chance(1, 3) {
             let own: Vec<Word> = visible(&lx, dic).into_iter().cloned().collect();
             let tgt = rng.pick(&own).clone();
-            lx.words.push(Word { dic, idx, key: tgt.key.clone(), cost: 10, indexed: true, a: vec![(tgt.dic, tgt.idx, false)], b: if rng.chance(1, 2) { vec![(tgt.dic, tgt.idx, false)] } else { vec![] } });
+            lx.words.push(Word { dic, idx, key: tgt.key.clone(), head: gen_head(rng, &tgt.key), cost: 10, indexed: true, a: vec![(tgt.dic, tgt.idx, false)], b: if rng.chance(1, 2) { vec![(tgt.dic, tgt.idx, false)] } else { vec![] } });
             idx += 1;
         }
         let _ = idx;
@@ -356,8 +376,16 @@ pub fn run_c(dict: &Dict, text: &str) -> Result<CRun, String> {
 }
 
 pub fn run_mode(dict: &Dict, text: &str, mode: Mode) -> Option<Vec<Tok>> {
+    run_mode_subset(dict, text, mode, None)
+}
+
+/// tokenise with a fresh tokenizer of the given mode, optionally after restricting the field request
+pub fn run_mode_subset(dict: &Dict, text: &str, mode: Mode, subset: Option<sudachi::dic::subset::InfoSubset>) -> Option<Vec<Tok>> {
     catch(|| {
         let mut tok = StatefulTokenizer::new(dict.clone(), mode);
+        if let Some(ss) = subset {
+            tok.set_subset(ss);
+        }
         tok.reset().push_str(text);
         tok.do_tokenize().expect("tokenisation error");
         let mut list = MorphemeList::empty(dict.clone());
@@ -434,6 +462,45 @@ fn dview(lx: &Lexica, cpath: &[(usize, usize, u32)]) -> (String, Value) {
     (clist(entries), Value::Array(js))
 }
 
+/// independent of the Coq model: the sub-tokens reported by split_into for a C token with >= 2 declared units cover,
+/// in order, exactly the keys (CSV column 0) of the declared units: sub-token j spans the modified-text bytes
+/// [start + len(key_0..j-1), start + len(key_0..j)), mapped to the original text through m2o
+fn key_range_oracle(lx: &Lexica, c: &CRun, sa: &[Option<(bool, Vec<Tok>)>], sb: &[Option<(bool, Vec<Tok>)>]) -> Option<String> {
+    for (i, p) in c.cpath.iter().enumerate() {
+        let (d, w) = ((p.2 >> 28) as usize, p.2 & 0x0fff_ffff);
+        if d >= 15 {
+            continue;
+        }
+        let word = lx.get(d, w);
+        let start: usize = c.modified.chars().take(p.0).map(|ch| ch.len_utf8()).sum();
+        for (name, units, sp) in [("A", &word.a, &sa[i]), ("B", &word.b, &sb[i])] {
+            if units.len() < 2 {
+                continue;
+            }
+            let subs = match sp {
+                Some((true, subs)) if subs.len() == units.len() => subs,
+                other => return Some(format!("split_into({}) of token {} ({:?}) with {} declared units answered {:?}", name, i, word.key, units.len(), other)),
+            };
+            let mut off = start;
+            for (j, u) in units.iter().enumerate() {
+                let klen = lx.get(u.0, u.1).key.len();
+                if off + klen >= c.m2o.len() {
+                    return Some(format!("unit keys of {:?} run past the text", word.key));
+                }
+                let (eb, ee) = (c.m2o[off], c.m2o[off + klen]);
+                if subs[j].begin != eb || subs[j].end != ee || subs[j].sb != eb || subs[j].se != ee {
+                    return Some(format!(
+                        "split_into({}) of token {} (key {:?}): sub-token {} is reported at {}..{} (surface bytes {}..{}) but the key {:?} of its unit occupies {}..{} of the original text",
+                        name, i, word.key, j, subs[j].begin, subs[j].end, subs[j].sb, subs[j].se, lx.get(u.0, u.1).key, eb, ee
+                    ));
+                }
+                off += klen;
+            }
+        }
+    }
+    None
+}
+
 fn rust_oracle(c: &CRun, a: &Option<Vec<Tok>>, b: &Option<Vec<Tok>>, sa: &[Option<(bool, Vec<Tok>)>], sb: &[Option<(bool, Vec<Tok>)>]) -> Option<String> {
     for (name, ab, sp, sel) in [("A", a, sa, 0usize), ("B", b, sb, 1usize)] {
         let ab = match ab {
@@ -495,8 +562,11 @@ pub struct CaseIn {
 }
 
 fn run_case(sink: &mut Sink, lx: &Lexica, dict: &Dict, ci: &CaseIn, ill_formed: bool, verbose: bool) {
+    // field request of the extra A/B runs: derived from the text so that a replay uses the same one
+    let restricted_bits: u32 = (hash_of(&ci.text) % 1024) as u32 & !1; // never SURFACE: most interesting for the split iterator
+
     let desc0 = json!({"kind": "c09", "text": ci.text, "system_csv": ci.sys_csv, "user_csvs": ci.user_csvs, "rewrite_def": REWRITE_DEF, "ill_formed": ill_formed,
-                       "lexica": lx.words.iter().map(|w| json!([w.dic, w.idx, w.key, w.cost, w.indexed, w.a, w.b])).collect::<Vec<_>>()});
+                       "lexica": lx.words.iter().map(|w| json!([w.dic, w.idx, w.key, w.cost, w.indexed, w.a, w.b, w.head])).collect::<Vec<_>>()});
     let c = match catch(|| run_c(dict, &ci.text)) {
         Ok(Ok(c)) => c,
         Ok(Err(e)) => {
@@ -538,6 +608,13 @@ fn run_case(sink: &mut Sink, lx: &Lexica, dict: &Dict, ci: &CaseIn, ill_formed: 
     let max_units = c.stored.iter().map(|s| s.0.len().max(s.1.len())).max().unwrap_or(0);
     let nontrivial = max_units >= 2;
     sink.tag(if nontrivial { "some_token_has_2+_units" } else { "no_token_splits" });
+    let differs = c.cpath.iter().filter(|p| (p.2 >> 28) < 15).any(|p| {
+        let w = lx.get((p.2 >> 28) as usize, p.2 & 0x0fff_ffff);
+        [&w.a, &w.b].iter().any(|us| us.len() >= 2 && us[..us.len() - 1].iter().any(|u| lx.get(u.0, u.1).head.len() != lx.get(u.0, u.1).key.len()))
+    });
+    if differs {
+        sink.tag("non-last_unit_headword_length_differs_from_key");
+    }
     if c.stored.iter().any(|s| s.0.len() == 1 || s.1.len() == 1) {
         sink.tag("token_with_exactly_one_unit");
     }
@@ -597,6 +674,20 @@ fn run_case(sink: &mut Sink, lx: &Lexica, dict: &Dict, ci: &CaseIn, ill_formed: 
             sink.fail(id, &format!("splitting panicked on well-formed declarations for {:?}", ci.text), "");
         } else if let Some(w) = rust_oracle(&c, &a, &b, &sa, &sb) {
             sink.fail(id, &w, "");
+        } else if let Some(w) = key_range_oracle(lx, &c, &sa, &sb) {
+            sink.fail(id, &w, "");
+        } else {
+            // boundaries and word ids must not depend on which word-info fields are requested (the field needed for
+            // splitting is added by the tokenizer itself)
+            use sudachi::dic::subset::InfoSubset;
+            let ss = InfoSubset::from_bits_truncate(restricted_bits);
+            for (m, full) in [(Mode::A, &a), (Mode::B, &b)] {
+                let r = run_mode_subset(dict, &ci.text, m, Some(ss));
+                if &r != full {
+                    sink.fail(id, &format!("mode {:?} with field request {:?} gives {:?}, with all fields {:?}", m, ss, r, full), "");
+                    break;
+                }
+            }
         }
     }
 }
@@ -609,6 +700,7 @@ fn lexica_from_json(v: &Value) -> Lexica {
             dic: w[0].as_u64().unwrap() as usize,
             idx: w[1].as_u64().unwrap() as u32,
             key: w[2].as_str().unwrap().to_string(),
+            head: w[7].as_str().unwrap_or(w[2].as_str().unwrap()).to_string(),
             cost: w[3].as_i64().unwrap() as i32,
             indexed: w[4].as_bool().unwrap(),
             a: units(&w[5]),
@@ -622,7 +714,7 @@ fn lexica_from_json(v: &Value) -> Lexica {
 pub fn run(args: &Args) {
     let mut sink = Sink::new("C09", &args.out, &["Model.Split"], args.seed, &args.tier);
     sink.shard_size = 100;
-    sink.rule("generated system + 0..2 user dictionaries (atoms of 1/2/3/4-byte code points, compounds declaring A and B units by id, U-id or inline reference: system->system, user->system, user->user; homographs; words with exactly one unit; unindexed unit targets) compiled by DictBuilder and loaded with DefaultInputTextPlugin + a rewrite.def whose rules change byte lengths; texts = 1..4 dictionary words / stray characters, randomly re-spelt in pre-normalisation form (upper case, full width, ㌔, rewrite rules); per text: C, A, B tokenisation and split_into(A/B) of every C token; non-trivial = some C token declares >= 2 units; a separate malformed stream uses ill-formed declarations (unit list too short / first unit longer than the text)");
+    sink.rule("generated system + 0..2 user dictionaries (atoms of 1/2/3/4-byte code points, headwords (column 4) often of another byte length than the key, compounds declaring A and B units by id, U-id or inline reference: system->system, user->system, user->user; homographs; words with exactly one unit; unindexed unit targets) compiled by DictBuilder and loaded with DefaultInputTextPlugin + a rewrite.def whose rules change byte lengths; texts = 1..4 dictionary words / stray characters, randomly re-spelt in pre-normalisation form (upper case, full width, ㌔, rewrite rules); per text: C, A, B tokenisation, A and B again under a restricted field request, and split_into(A/B) of every C token (sub-token ranges also checked against the unit key lengths); non-trivial = some C token declares >= 2 units; a separate malformed stream uses ill-formed declarations (unit list too short / first unit longer than the text)");
     let res = prepare_resources(&args.work);
     let cfg = config_json(&res, "");
     if let Some(p) = &args.replay {
@@ -648,9 +740,9 @@ pub fn run(args: &Args) {
     {
         let mut lx = Lexica::default();
         lx.ndics = 1;
-        lx.words.push(Word { dic: 0, idx: 0, key: "ab".into(), cost: 1000, indexed: true, a: vec![(0, 1, false), (0, 2, false)], b: vec![(0, 1, false), (0, 2, false)] });
-        lx.words.push(Word { dic: 0, idx: 1, key: "a".into(), cost: 1000, indexed: false, a: vec![], b: vec![] });
-        lx.words.push(Word { dic: 0, idx: 2, key: "b".into(), cost: 1000, indexed: false, a: vec![], b: vec![] });
+        lx.words.push(Word { dic: 0, idx: 0, key: "ab".into(), head: "AB".into(), cost: 1000, indexed: true, a: vec![(0, 1, false), (0, 2, false)], b: vec![(0, 1, false), (0, 2, false)] });
+        lx.words.push(Word { dic: 0, idx: 1, key: "a".into(), head: "A".into(), cost: 1000, indexed: false, a: vec![], b: vec![] });
+        lx.words.push(Word { dic: 0, idx: 2, key: "b".into(), head: "B".into(), cost: 1000, indexed: false, a: vec![], b: vec![] });
         let sys_csv = lx.csv(0);
         let dict: Dict = Rc::new(build_dict(&sys_csv, &[], &cfg).expect("corpus dictionary"));
         for text in ["ＡＢ", "ab", "AB", "abab", "xＡb。", ""] {
